@@ -13,7 +13,9 @@ RULE = ("cases = a generated class (random fields a,b, non-random c, a fixed-siz
         "randomizations with ONE fault injected at a generated position: (a) an exception raised by user code inside a "
         "constraint body during construction at statement k, also inside if_then / implies / foreach bodies; (b) inside a "
         "randomize_with body before / after statement k; (c) in pre_randomize / post_randomize of the top object or the "
-        "sub-object; (d) a call made unsatisfiable (SolveFailure) with foreach and dist rewrites active.  Oracle 1: right "
+        "sub-object; (d) a call made unsatisfiable (SolveFailure) with foreach and dist rewrites active; (e) a failing call made "
+        "from pre_randomize of the enclosing call on its random sub-object and handled there (own shard, judged against the "
+        "enumerated solutions and the callback counts of the enclosing call).  Oracle 1: right "
         "after the faulted call the six process-wide construction stacks are empty, no model object reachable from the "
         "object holds a solver handle, and no temporary override constraint remains in its constraint tree.  Oracle 2 "
         "(twin): the same history without the faulted call is run in a second session; both sessions re-seed right "
@@ -323,6 +325,12 @@ class Session:
 
 
 def run_case(case):
+    if case.get("nested_call"):
+        # (e) a failed call made from inside a callback of the enclosing call and handled there (shared with C17/C02)
+        from . import c17
+        vios, info = c17.run_nested(case)
+        return [dict(v, property=PROPERTY, detail=v["detail"] + " [nested failing call handled in pre_randomize]") for v in vios], \
+            dict(info, fired=True, later_ops=2 if info.get("nested_calls") else 0, nested=True)
     info = {}
     a = Session(case, True)
     ta = a.run()
@@ -352,6 +360,10 @@ def run_case(case):
 def body(case, acc):
     vios, info = run_case(case)
     nt = info.get("fired") and info.get("later_ops", 0) >= 2
+    if case.get("nested_call"):
+        acc.case(case, bool(nt), sample=cjson(case))
+        acc.label("fault:nested failing call handled in a callback")
+        return vios
     acc.case(case, bool(nt), sample=text_of(case))
     acc.label("fault:" + case["fault"]["kind"])
     if not info.get("fired"):
@@ -360,10 +372,15 @@ def body(case, acc):
 
 
 def shards(tier):
-    return [{"i": i, "n": 60 if tier == "quick" else 2500} for i in range(16)]
+    return [{"i": i, "n": 60 if tier == "quick" else 2500} for i in range(15)] + \
+        [{"kind": "nested", "i": 0, "n": 60 if tier == "quick" else 1500}]
 
 
 def run_shard(spec, seed, tier, acc):
+    if spec.get("kind") == "nested":
+        from . import c17
+        hyp.drive(c17.nested_cases(fail_only=True), body, seed, spec["n"], acc)
+        return
     hyp.drive(cases(), body, seed, spec["n"], acc)
 
 
